@@ -2,7 +2,7 @@
 disjoint partitions of the namespace, interleaved with each other and with engine steps; oracle = base+d0+d1."""
 from .common import (Exec, gen_history, Violation, weighted, random_mix, drive, sched_after_op, ALL_FLAVOURS, REAL, STUBS,
                      diff_trees, tree_str)
-from sim.plan import propose
+from sim.plan import propose, expand_op
 from sim import model as M
 
 ID = "C04"
@@ -96,6 +96,8 @@ def generate(rng, tier, index):
         if not ex.synced_ok:
             return
         mixes = (random_mix(rng), random_mix(rng))
+        for m in mixes:
+            m["swap"] = 1           # two files of one partition exchange names through a temporary name
         n = rng.randint(1, 8)
         done = tries = 0
         while done < n and tries < n * 6:
@@ -107,7 +109,17 @@ def generate(rng, tier, index):
                 continue
             if op[0] == "rename_dir" and not (op[2].startswith(PFX[side] + "/")):
                 continue
-            if not ex.apply(["U", side] + list(op)):
+            steps = expand_op(op, ex.model)
+            if not steps:
+                continue
+            ok = True
+            for k, one in enumerate(steps):
+                if not ex.apply(["U", side] + list(one)):
+                    ok = False
+                    break
+                if k < len(steps) - 1 and style == "eager":
+                    ex.apply(["Q"])
+            if not ok:
                 continue
             done += 1
             sched_after_op(rng, ex, style)
